@@ -67,6 +67,9 @@ func gate(tier string) map[string]int {
 		"setgasprice_demoted_pending_run": 3, "pool_full_eviction": 3,
 		"add_result_ok": 1000, "add_result_nonce_too_low": 5, "add_result_insufficient_funds": 20, "add_result_gas_limit": 5, "add_result_underpriced": 10,
 		"add_result_known": 10, "add_result_intrinsic_gas": 5,
+		"concurrent_phases": 200, "concurrent_operations": 50000, "concurrent_snapshots_checked": 2000, "concurrent_head_advance": 50, "concurrent_head_reorg": 20,
+		"conc_add_ok": 5000, "conc_set_gas_price": 100, "conc_read_pending": 500, "conc_read_state_nonce": 500,
+		"lin_slot_histories_checked": 500, "lin_slot_operations": 10000, "lin_slots_with_replacement": 200, "lin_runs_with_concurrent_head_events": 10,
 	}
 }
 
